@@ -66,13 +66,16 @@ Definition ed_hop_trigger (m : msg) (n : Z) : bool :=
 Definition ed_hop_step (p : pdu) (n : Z) : pdu :=
   if ed_hop_trigger (p_msg p) n then snd (add_opt_raw p 16 [16]) else p.
 
+(* coap_add_option_internal *)
+Definition ed_add_internal (p : pdu) (n : Z) (v : bytes) : bool * pdu :=
+  let mx := last_num (m_opts (p_msg p)) in
+  if (n =? mx) && negb (repeatable n) then (false, p)
+  else add_opt_raw (ed_hop_step p n) n v.
+
 Definition ed_insert (p : pdu) (n : Z) (v : bytes) : bool * pdu :=
-  let m := p_msg p in
-  let mx := last_num (m_opts m) in
+  let mx := last_num (m_opts (p_msg p)) in
   if n <? mx then add_opt_raw p n v                (* in-place path: no repeat check *)
-  else                                             (* coap_add_option_internal *)
-    if (n =? mx) && negb (repeatable n) then (false, p)
-    else add_opt_raw (ed_hop_step p n) n v.
+  else ed_add_internal p n v.
 
 (* ---- coap_update_option ---- *)
 
@@ -123,6 +126,33 @@ Fixpoint ed_run (p : pdu) (es : list ed_op) : list bool * pdu :=
   | [] => ([], p)
   | e :: tl => let (r, p1) := ed_apply p e in
                let (rs, p2) := ed_run p1 tl in (r :: rs, p2)
+  end.
+
+(* ---- coap_pdu_duplicate_lkd ----
+   A fresh PDU (same type and code, message id [mid'], max_size = max(old max_size, what the
+   session allows)) gets the token [t] (silently no token if that is refused), no payload, and
+   the options of the old PDU: all of them, copied as a block, when there is no filter; otherwise
+   those whose number is not in the filter, re-added one by one with coap_add_option_internal
+   (so the repeat check and the implicit Hop-Limit step apply again).  [None] = NULL. *)
+Fixpoint ed_readd (p : pdu) (l : list opt) : option pdu :=
+  match l with
+  | [] => Some p
+  | (n, v) :: tl =>
+      let (r, p1) := ed_add_internal p n v in
+      if r then ed_readd p1 tl else None
+  end.
+
+Definition ed_dup (q : pdu) (mid' smax : Z) (t : bytes) (drop_ : option (list Z)) : option pdu :=
+  let m := p_msg q in
+  let mx := Z.max (p_max q) smax in
+  let p0 := mkPdu (mkMsg (m_type m) (m_code m) mid' [] [] []) mx in
+  let p1 := snd (ed_token p0 t) in
+  match drop_ with
+  | None =>
+      if fits p1 (len (token_area (m_token (p_msg p1))) + len (opts_enc 0 (m_opts m)))
+      then Some (set_opts p1 (m_opts m)) else None
+  | Some dl =>
+      ed_readd p1 (filter (fun o => negb (existsb (Z.eqb (fst o)) dl)) (m_opts m))
   end.
 
 (* the starting message of a case that is given as wire bytes: coap_pdu_parse, then max_size *)
